@@ -117,6 +117,67 @@ pub fn parse_pyth(data: &[u8]) -> Option<PythRaw> {
 }
 
 /// The usable price of a bank from the presented oracle accounts (as found in the store), or why not.
+
+/// the venue half of an exchange-rate-adjusted oracle: checks the configured reserve / market account (owner, layout,
+/// refreshed in this slot / second) and returns the integer adjustment raw -> raw x rate the adapters apply
+fn venue_adjuster(s: &Store, cfg: &marginfi_type_crate::types::BankConfig, flavour: OracleSetup) -> Result<Box<dyn Fn(i128) -> i128>, OracleErr> {
+            let v = s.get(&cfg.oracle_keys[1]).ok_or(OracleErr::Missing)?;
+            // (numerator, denominator) of the exchange rate, and freshness of the venue account
+            let mut venue_decimals: u32 = 0;
+            let (num, den, fresh): (u128, u128, bool) = match flavour {
+                OracleSetup::KaminoPythPush => {
+                    if v.owner != kamino_mocks::ID || v.data.len() < 8 + std::mem::size_of::<kamino_mocks::state::MinimalReserve>() {
+                        return Err(OracleErr::BadData);
+                    }
+                    let r: kamino_mocks::state::MinimalReserve = bytemuck::pod_read_unaligned(&v.data[8..8 + std::mem::size_of::<kamino_mocks::state::MinimalReserve>()]);
+                    venue_decimals = r.mint_decimals as u32;
+                    (r.available_amount as u128, r.mint_total_supply as u128, r.slot >= s.slot)
+                }
+                OracleSetup::SolendPythPull => {
+                    // Solend is not an Anchor program: its accounts start with a one-byte version tag
+                    let off = solend_mocks::state::RESERVE_DISCRIMINATOR.len();
+                    if v.owner != solend_mocks::ID || v.data.len() < off + std::mem::size_of::<solend_mocks::state::SolendMinimalReserve>() || v.data[..off] != solend_mocks::state::RESERVE_DISCRIMINATOR {
+                        return Err(OracleErr::BadData);
+                    }
+                    let r: solend_mocks::state::SolendMinimalReserve = bytemuck::pod_read_unaligned(&v.data[off..off + std::mem::size_of::<solend_mocks::state::SolendMinimalReserve>()]);
+                    venue_decimals = r.liquidity_mint_decimals as u32;
+                    (r.liquidity_available_amount as u128, r.collateral_mint_total_supply as u128, r.last_update_slot >= s.slot)
+                }
+                _ => {
+                    if v.owner != drift_mocks::ID || v.data.len() < 8 + std::mem::size_of::<drift_mocks::state::MinimalSpotMarket>() {
+                        return Err(OracleErr::BadData);
+                    }
+                    let m: drift_mocks::state::MinimalSpotMarket = bytemuck::pod_read_unaligned(&v.data[8..8 + std::mem::size_of::<drift_mocks::state::MinimalSpotMarket>()]);
+                    (u128::from_le_bytes(m.cumulative_deposit_interest), 10_000_000_000u128, m.last_interest_ts as i64 >= s.now)
+                }
+            };
+            if !fresh {
+                return Err(OracleErr::Stale);
+            }
+            if den == 0 {
+                return Err(OracleErr::BadData);
+            }
+            let drift = flavour == OracleSetup::DriftPythPull;
+            Ok(Box::new(move |raw: i128| -> i128 {
+                if drift {
+                    // integer arithmetic: raw x cumulative interest / 10^10, floored
+                    (raw * num as i128).div_euclid(den as i128)
+                } else {
+                    // both supplies are held in whole tokens at 2^-48 resolution (rounded down); the rate is
+                    // their quotient at 2^-48 resolution with the collateral side taken one ulp up, so that
+                    // it never exceeds the exact rate (C20 checks that independently); product floored
+                    use num_bigint::BigInt;
+                    use num_traits::ToPrimitive;
+                    let scale = BigInt::from(10u128.pow(venue_decimals.min(23)));
+                    let l48: BigInt = (BigInt::from(num) << 48) / &scale;
+                    let c48: BigInt = (BigInt::from(den) << 48) / &scale + 1;
+                    let rate48: BigInt = (l48 << 48) / c48;
+                    let prod: BigInt = (BigInt::from(raw) * rate48) >> 48;
+                    prod.to_i128().unwrap_or(i128::MAX)
+                }
+            }))
+}
+
 pub fn oracle_ref(s: &Store, bank: &Bank) -> Result<OracleRef, OracleErr> {
     let cfg = &bank.config;
     let max_age: i64 = match (cfg.oracle_max_age, cfg.oracle_setup) {
@@ -214,6 +275,33 @@ pub fn oracle_ref(s: &Store, bank: &Bank) -> Result<OracleRef, OracleErr> {
             let tb = band(&twap, &(rf::qu(p.ema_conf) * scale), &mult, cfg.oracle_max_confidence);
             Ok(OracleRef { spot, spot_band: sb, twap, twap_band: tb })
         }
+        OracleSetup::KaminoSwitchboardPull | OracleSetup::SolendSwitchboardPull | OracleSetup::DriftSwitchboardPull => {
+            // Switchboard data of the underlying (value and standard deviation, integers at 1e18), each multiplied
+            // by the venue's exchange rate exactly as for the Pyth flavours below
+            let a = s.get(&cfg.oracle_keys[0]).ok_or(OracleErr::Missing)?;
+            if a.owner != marginfi::constants::SWITCHBOARD_PULL_ID {
+                return Err(OracleErr::WrongOwner);
+            }
+            let sz = std::mem::size_of::<switchboard_on_demand::PullFeedAccountData>();
+            if a.data.len() < 8 + sz || a.data[..8] != <switchboard_on_demand::PullFeedAccountData as switchboard_on_demand::Discriminator>::DISCRIMINATOR {
+                return Err(OracleErr::BadData);
+            }
+            let feed: switchboard_on_demand::PullFeedAccountData = bytemuck::pod_read_unaligned(&a.data[8..8 + sz]);
+            if s.now.saturating_sub(feed.last_update_timestamp) > max_age {
+                return Err(OracleErr::Stale);
+            }
+            let pyth_twin = match cfg.oracle_setup {
+                OracleSetup::KaminoSwitchboardPull => OracleSetup::KaminoPythPush,
+                OracleSetup::SolendSwitchboardPull => OracleSetup::SolendPythPull,
+                _ => OracleSetup::DriftPythPull,
+            };
+            let adj = venue_adjuster(s, cfg, pyth_twin)?;
+            let e18 = rf::pow10(18);
+            let p = rf::qi(adj(feed.result.value)) / e18.clone();
+            let c = rf::qi(adj(feed.result.std_dev)) / e18;
+            let b = band(&p, &c, &q_const(STD_DEV_MULTIPLE), cfg.oracle_max_confidence);
+            Ok(OracleRef { spot: p.clone(), spot_band: b.clone(), twap: p, twap_band: b })
+        }
         OracleSetup::KaminoPythPush | OracleSetup::SolendPythPull | OracleSetup::DriftPythPull => {
             // Pyth data of the underlying, with price, confidence, EMA price and EMA confidence each
             // multiplied by the venue's exchange rate (reference restricted to reserves / markets whose
@@ -234,61 +322,7 @@ pub fn oracle_ref(s: &Store, bank: &Bank) -> Result<OracleRef, OracleErr> {
             if p.publish_time.saturating_add(max_age) < s.now {
                 return Err(OracleErr::Stale);
             }
-            let v = s.get(&cfg.oracle_keys[1]).ok_or(OracleErr::Missing)?;
-            // (numerator, denominator) of the exchange rate, and freshness of the venue account
-            let mut venue_decimals: u32 = 0;
-            let (num, den, fresh): (u128, u128, bool) = match cfg.oracle_setup {
-                OracleSetup::KaminoPythPush => {
-                    if v.owner != kamino_mocks::ID || v.data.len() < 8 + std::mem::size_of::<kamino_mocks::state::MinimalReserve>() {
-                        return Err(OracleErr::BadData);
-                    }
-                    let r: kamino_mocks::state::MinimalReserve = bytemuck::pod_read_unaligned(&v.data[8..8 + std::mem::size_of::<kamino_mocks::state::MinimalReserve>()]);
-                    venue_decimals = r.mint_decimals as u32;
-                    (r.available_amount as u128, r.mint_total_supply as u128, r.slot >= s.slot)
-                }
-                OracleSetup::SolendPythPull => {
-                    // Solend is not an Anchor program: its accounts start with a one-byte version tag
-                    let off = solend_mocks::state::RESERVE_DISCRIMINATOR.len();
-                    if v.owner != solend_mocks::ID || v.data.len() < off + std::mem::size_of::<solend_mocks::state::SolendMinimalReserve>() || v.data[..off] != solend_mocks::state::RESERVE_DISCRIMINATOR {
-                        return Err(OracleErr::BadData);
-                    }
-                    let r: solend_mocks::state::SolendMinimalReserve = bytemuck::pod_read_unaligned(&v.data[off..off + std::mem::size_of::<solend_mocks::state::SolendMinimalReserve>()]);
-                    venue_decimals = r.liquidity_mint_decimals as u32;
-                    (r.liquidity_available_amount as u128, r.collateral_mint_total_supply as u128, r.last_update_slot >= s.slot)
-                }
-                _ => {
-                    if v.owner != drift_mocks::ID || v.data.len() < 8 + std::mem::size_of::<drift_mocks::state::MinimalSpotMarket>() {
-                        return Err(OracleErr::BadData);
-                    }
-                    let m: drift_mocks::state::MinimalSpotMarket = bytemuck::pod_read_unaligned(&v.data[8..8 + std::mem::size_of::<drift_mocks::state::MinimalSpotMarket>()]);
-                    (u128::from_le_bytes(m.cumulative_deposit_interest), 10_000_000_000u128, m.last_interest_ts as i64 >= s.now)
-                }
-            };
-            if !fresh {
-                return Err(OracleErr::Stale);
-            }
-            if den == 0 {
-                return Err(OracleErr::BadData);
-            }
-            let drift = cfg.oracle_setup == OracleSetup::DriftPythPull;
-            let adj = |raw: i128| -> i128 {
-                if drift {
-                    // integer arithmetic: raw x cumulative interest / 10^10, floored
-                    (raw * num as i128).div_euclid(den as i128)
-                } else {
-                    // both supplies are held in whole tokens at 2^-48 resolution (rounded down); the rate is
-                    // their quotient at 2^-48 resolution with the collateral side taken one ulp up, so that
-                    // it never exceeds the exact rate (C20 checks that independently); product floored
-                    use num_bigint::BigInt;
-                    use num_traits::ToPrimitive;
-                    let scale = BigInt::from(10u128.pow(venue_decimals.min(23)));
-                    let l48: BigInt = (BigInt::from(num) << 48) / &scale;
-                    let c48: BigInt = (BigInt::from(den) << 48) / &scale + 1;
-                    let rate48: BigInt = (l48 << 48) / c48;
-                    let prod: BigInt = (BigInt::from(raw) * rate48) >> 48;
-                    prod.to_i128().unwrap_or(i128::MAX)
-                }
-            };
+            let adj = venue_adjuster(s, cfg, cfg.oracle_setup)?;
             let scale = pow10_signed(p.expo);
             let mult = q_const(CONF_INTERVAL_MULTIPLE);
             let spot = rf::qi(adj(p.price as i128)) * scale.clone();
